@@ -9,15 +9,15 @@
 // harness: k_csi_scalar_58 props=C03,C20 fns=Parser::csi_dispatch kind=complete tier=quick timeout=900 obligation=Parser::csi_dispatch/E1(scalar,0x58-0x5f)
 // harness: k_csi_scalar_60 props=C03,C20 fns=Parser::csi_dispatch kind=complete tier=quick timeout=900 obligation=Parser::csi_dispatch/E1(scalar,0x60-0x67)
 // harness: k_csi_scalar_68 props=C03,C20 fns=Parser::csi_dispatch kind=complete tier=quick timeout=900 obligation=Parser::csi_dispatch/E1(scalar,0x69-0x6b,0x6e,0x6f)
-// harness: k_csi_scalar_hlm props=C03,C20 fns=Parser::csi_dispatch kind=complete tier=thorough timeout=2400 obligation=Parser::csi_dispatch/E1(scalar,h,l,m outside the list-valued marker combinations)
+// harness: k_csi_scalar_hlm props=C03,C20 fns=Parser::csi_dispatch kind=complete tier=thorough timeout=2400 obligation="Parser::csi_dispatch/E1(scalar,h,l,m outside the list-valued marker combinations)"
 // harness: k_csi_scalar_70 props=C03,C20 fns=Parser::csi_dispatch kind=complete tier=quick timeout=900 obligation=Parser::csi_dispatch/E1(scalar,0x70-0x77)
 // harness: k_csi_scalar_78 props=C03,C20 fns=Parser::csi_dispatch kind=complete tier=quick timeout=900 obligation=Parser::csi_dispatch/E1(scalar,0x78-0x7e)
-// harness: k_csi_other props=C03,C20 fns=Parser::csi_dispatch kind=complete tier=quick timeout=600 obligation=Parser::csi_dispatch/E1(final outside 0x40-0x7e folded range)
+// harness: k_csi_other props=C03,C20 fns=Parser::csi_dispatch kind=complete tier=quick timeout=600 obligation="Parser::csi_dispatch/E1(final outside 0x40-0x7e folded range)"
 // harness: k_csi_modes_sm props=C03 fns=Parser::csi_dispatch kind=bounded tier=thorough timeout=1800 obligation=Parser::csi_dispatch/E1(SM) bound="3 parameters, values fully symbolic"
 // harness: k_csi_modes_rm props=C03 fns=Parser::csi_dispatch kind=bounded tier=thorough timeout=1800 obligation=Parser::csi_dispatch/E1(RM) bound="2 parameters, values fully symbolic"
 // harness: k_csi_modes_decset props=C03 fns=Parser::csi_dispatch kind=bounded tier=thorough timeout=1800 obligation=Parser::csi_dispatch/E1(DECSET) bound="3 parameters, values fully symbolic"
 // harness: k_csi_modes_decrst props=C03 fns=Parser::csi_dispatch kind=bounded tier=thorough timeout=1800 obligation=Parser::csi_dispatch/E1(DECRST) bound="2 parameters, values fully symbolic"
-// harness: k_sgr_step props=C03,C08 fns=SgrOps kind=bounded tier=thorough timeout=1800 obligation=SgrOps::next(one step) bound="<= 5 remaining parameters, each fully symbolic (6 parts)"
+// harness: k_sgr_step props=C03,C08 fns=SgrOps kind=bounded tier=thorough timeout=1800 obligation="SgrOps::next(one step)" bound="<= 5 remaining parameters, each fully symbolic (6 parts)"
 // harness: k_sgr_list props=C03,C08 fns=Parser::csi_dispatch,SgrOps kind=bounded tier=thorough timeout=1800 obligation=Parser::csi_dispatch/E1(SGR) bound="cur_param <= 2"
 //
 // Kani units for the parts of parser.rs that are outside Verus's Rust subset (iterator chains,
